@@ -85,6 +85,7 @@ type WorkerOut struct {
 	WallS      float64           `json:"wall_s"`
 	ListViaIt  bool              `json:"list_via_iterate"`
 	Extra      map[string]int64  `json:"extra,omitempty"`
+	Mismatch   []int             `json:"mismatch,omitempty"` // runs whose in-process re-execution hashed differently
 	Digest     uint64            `json:"digest,string"` // fold of every run's event-log hash, in run order
 	Blocked    int               `json:"blocked,omitempty"`
 	BlockedRun int               `json:"blocked_run,omitempty"`
@@ -200,9 +201,12 @@ func worldWorker() {
 			pl2 := genWorldPlan(prop, seed, i)
 			res2 := runWorld(&pl2, mk, kf, false)
 			if res2.Hash != res.Hash {
-				infra("nondeterminism: run %d of %s hashed %x then %x", i, prop, res.Hash, res2.Hash)
+				// Either the harness is nondeterministic, or the library carries state from run to run
+				// inside this process (a cache). The driver decides by re-running in fresh processes.
+				out.Mismatch = append(out.Mismatch, i)
+			} else {
+				out.Redone++
 			}
-			out.Redone++
 		}
 	}
 	out.Hashes = dedupe(hashes)
@@ -293,6 +297,39 @@ func runChildren(bin string, prop string, n, workers int, tmp string, tag string
 	return outs
 }
 
+// verifyFresh: a run whose in-process re-execution differed is executed alone in two fresh
+// processes. Equal digests mean the library carries state between runs of one process (reported in
+// the evidence, not an error); different digests mean the simulator itself is nondeterministic.
+func verifyFresh(bin, prop string, runs []int, tmp string) int {
+	sort.Ints(runs)
+	if len(runs) > 3 {
+		runs = runs[:3]
+	}
+	for _, r := range runs {
+		var d [2]uint64
+		for k := 0; k < 2; k++ {
+			out := filepath.Join(tmp, fmt.Sprintf("vf-%s-%d-%d.json", prop, r, k))
+			cmd := exec.Command(bin, "-mode", "worker", "-prop", prop, "-seed", fmt.Sprint(masterSeed()), "-runs", fmt.Sprint(r+1), "-stride", "1", "-offset", fmt.Sprint(r), "-out", out, "-verif", *fVerif, "-tmp", tmp)
+			cmd.Env = append(os.Environ(), "GORACE=halt_on_error=1 exitcode=66 log_path="+out+".racelog")
+			if b, err := cmd.CombinedOutput(); err != nil {
+				infra("verifyFresh: %v\n%s", err, tailStr(string(b), 1500))
+			}
+			var o WorkerOut
+			data, _ := os.ReadFile(out)
+			if json.Unmarshal(data, &o) != nil {
+				infra("verifyFresh: unreadable result")
+			}
+			d[k] = o.Digest
+			os.Remove(out)
+			os.Remove(out + ".hashes")
+		}
+		if d[0] != d[1] {
+			infra("nondeterminism: run %d of %s gives digests %x and %x in two fresh processes", r, prop, d[0], d[1])
+		}
+	}
+	return len(runs)
+}
+
 func tailStr(s string, n int) string {
 	if len(s) > n {
 		return s[len(s)-n:]
@@ -312,6 +349,7 @@ type Merged struct {
 	MaxWall                         float64
 	ListViaIt                       bool
 	Extra                           map[string]int64
+	Mismatch                        []int
 }
 
 func merge(outs []*WorkerOut) *Merged {
@@ -359,6 +397,7 @@ func merge(outs []*WorkerOut) *Merged {
 			m.MaxWall = o.WallS
 		}
 		m.ListViaIt = m.ListViaIt || o.ListViaIt
+		m.Mismatch = append(m.Mismatch, o.Mismatch...)
 	}
 	m.Distinct = len(dedupe(all))
 	if len(m.Samples) > 4 {
@@ -479,6 +518,11 @@ func drive() int {
 	if m.Viol != nil {
 		return reportWorldViolation(prop, m, mk, kf, t0, outs)
 	}
+	if len(m.Mismatch) > 0 {
+		n := verifyFresh(os.Args[0], prop, m.Mismatch, *fTmp)
+		m.Extra["runs_whose_in_process_reexecution_differed(library keeps state between runs; fresh processes agree)"] = int64(len(m.Mismatch))
+		m.Extra["of_which_verified_in_fresh_processes"] = int64(n)
+	}
 	for id := range m.Known {
 		knownSeen[id] = true
 	}
@@ -563,8 +607,41 @@ func reportWorldViolation(prop string, m *Merged, mk func() Checker, kf *KnownFi
 		r := runWorld(p, mk, kf, false)
 		return r.Viol != nil && r.Viol.Clause == clause && sameSignature(r.Viol, &fv.V)
 	}
+	var prelude *Prelude
 	if !pred(&fv.Plan) {
-		infra("violation of %s in run %d did not reproduce in the driver process", prop, fv.Run)
+		// Not reproducible alone: the library may carry state between runs (e.g. a package-level
+		// cache). Re-execute the worker's earlier runs in this process first.
+		if fv.Run < 0 {
+			infra("listed known-finding example failed differently and does not reproduce")
+		}
+		// The attempt above has already touched the library's state in this process, so the
+		// reproduction must happen in a fresh one: write the replay (with prelude) and replay it.
+		prelude = &Prelude{Seed: masterSeed(), Offset: fv.Run % *fWorkers, Stride: *fWorkers, Upto: fv.Run}
+		rep := Replay{Property: prop, Clause: clause, Step: fv.V.Step, Witness: fv.V.Witness, Trace: planTrace(&fv.Plan), Plan: fv.Plan, Prelude: prelude}
+		rep.Original.Seed, rep.Original.Run, rep.Original.Ops = fv.Plan.Seed, fv.Run, len(fv.Plan.Ops)
+		path := writeReplay(prop, &rep, fv.Run)
+		cmd := exec.Command(os.Args[0], "-mode", "replay", "-file", path, "-verif", *fVerif, "-tmp", *fTmp)
+		outb, err := cmd.CombinedOutput()
+		code := 0
+		if ee, ok := err.(*exec.ExitError); ok {
+			code = ee.ExitCode()
+		}
+		if code != 1 {
+			os.Remove(path)
+			infra("violation of %s in run %d (%s) reproduces neither alone nor after re-executing the worker's earlier runs in a fresh process\n%s", prop, fv.Run, clause, tailStr(string(outb), 1500))
+		}
+		fmt.Printf("sim: %s violated: clause %s at step %d (depends on library state left by earlier runs of the same process; the replay re-executes them first)\n", prop, clause, fv.V.Step)
+		for _, l := range planTrace(&fv.Plan) {
+			fmt.Println("   ", l)
+		}
+		for _, k := range sortedWitness(fv.V.Witness) {
+			fmt.Printf("    %s: %s\n", k, fv.V.Witness[k])
+		}
+		if outs != nil {
+			writeWorldEvidence(prop, m, 1, t0)
+		}
+		fmt.Printf("VIOLATION property=%s replay=%s\n", prop, path)
+		return 1
 	}
 	small := shrinkWorld(fv.Plan, pred)
 	// the minimised plan must reproduce twice
@@ -590,6 +667,18 @@ func reportWorldViolation(prop string, m *Merged, mk func() Checker, kf *KnownFi
 	}
 	fmt.Printf("VIOLATION property=%s replay=%s\n", prop, path)
 	return 1
+}
+
+// runPrelude mirrors worldWorker exactly (including the determinism re-execution of every 50th plan).
+func runPrelude(prop string, p *Prelude, mk func() Checker, kf *KnownFindings) {
+	for i := p.Offset; i < p.Upto; i += p.Stride {
+		pl := genWorldPlan(prop, p.Seed, i)
+		runWorld(&pl, mk, kf, false)
+		if (i/p.Stride)%50 == 0 {
+			pl2 := genWorldPlan(prop, p.Seed, i)
+			runWorld(&pl2, mk, kf, false)
+		}
+	}
 }
 
 // sameSignature keeps the shrinker on the same bug: for panics the top library frame must stay.
@@ -642,6 +731,9 @@ func replay() int {
 	mk := checkerFor(rep.Property)
 	if mk == nil {
 		infra("replay: unknown property %q", rep.Property)
+	}
+	if rep.Prelude != nil {
+		runPrelude(rep.Property, rep.Prelude, mk, kf)
 	}
 	res := runWorld(&rep.Plan, mk, kf, true)
 	for _, l := range res.Log {
